@@ -146,6 +146,15 @@ func templateForms() []form {
 		tf("for", "for-range-none", "{% for range s %}", "{% end %}"),
 		tf("for", "for-range-int", "{% for i := range 3 %}", "{% end %}"),
 		tf("for", "for-range-assign", "{% for n, str = range str %}", "{% end %}"),
+		// the assignment form with every kind of assignable (or not) left operand
+		tf("for", "for-range-assign-index", "{% for s[0] = range s %}", "{% end %}"),
+		tf("for", "for-range-assign-blank-index", "{% for _, s[1] = range s %}", "{% end %}"),
+		tf("for", "for-range-assign-deref", "{% for *(&n) = range s %}", "{% end %}"),
+		tf("for", "for-range-assign-parens", "{% for (n) = range s %}", "{% end %}"),
+		tf("for", "for-range-assign-map-index", "{% for map[int]int{}[0] = range s %}", "{% end %}"),
+		tf("for", "for-range-assign-field", "{% for n, struct{ F int }{}.F = range s %}", "{% end %}"),
+		tf("for", "for-range-assign-call", "{% for len(s) = range s %}", "{% end %}"),
+		tf("for", "for-range-assign-literal", "{% for 1 = range s %}", "{% end %}"),
 		tf("for", "for-range-blank", "{% for _, v := range s %}", "{% end %}"),
 		tf("for", "for-range-chan", "{% for v := range ch %}", "{% break %}{% end %}"),
 		tf("for", "for-range-func", "{% for v := range func(yield func(int) bool) {} %}", "{% end %}"),
@@ -492,7 +501,8 @@ func calleeForms(syn byte) []form {
 			out = append(out, tf("callee", "defer "+call, pre+"{% defer "+call+" %}"), tf("callee", "go "+call, pre+"{% go "+call+" %}"),
 				tf("callee", "call "+call, pre+"{% "+call+" %}"), tf("callee", "show "+call, pre+"{{ "+call+" }}"),
 				tf("callee", "defer-in-macro "+call, pre+"{% macro A %}{% defer "+call+" %}{% end macro %}{{ A() }}"),
-				tf("callee", "defer-in-for "+call, pre+"{% for i := 0; i < 2; i++ %}{% defer "+call+" %}{% end %}"))
+				tf("callee", "defer-in-for "+call, pre+"{% for i := 0; i < 2; i++ %}{% defer "+call+" %}{% end %}"),
+				tf("callee", "call-in-macro-unnamed-param "+call, pre+"{% macro A(int) %}{% "+call+" %}{% end macro %}{{ A(1) }}"))
 			continue
 		}
 		pre := ""
@@ -501,7 +511,8 @@ func calleeForms(syn byte) []form {
 		}
 		out = append(out, gf("callee", "defer "+call, pre+"defer "+call), gf("callee", "go "+call, pre+"go "+call), gf("callee", "call "+call, pre+call),
 			gf("callee", "assign "+call, pre+"_ = "+call), gf("callee", "defer-in-funclit "+call, pre+"func() { defer "+call+" }()"),
-			gf("callee", "defer-in-for "+call, pre+"for i := 0; i < 2; i++ { defer "+call+" }"), gf("callee", "go-in-funclit "+call, pre+"func() { go "+call+" }()"))
+			gf("callee", "defer-in-for "+call, pre+"for i := 0; i < 2; i++ { defer "+call+" }"), gf("callee", "go-in-funclit "+call, pre+"func() { go "+call+" }()"),
+			gf("callee", "call-in-funclit-unnamed-param "+call, pre+"func(int) { "+call+" }(1)"))
 	}
 	return out
 }
@@ -689,6 +700,14 @@ func goForms() []form {
 		gf("for", "for-range-none", "for range s {", "}"),
 		gf("for", "for-range-int", "for i := range 3 { _ = i", "}"),
 		gf("for", "for-range-assign", "for n, str = range str {", "}"),
+		gf("for", "for-range-assign-index", "for s[0] = range s {", "}"),
+		gf("for", "for-range-assign-blank-index", "for _, s[1] = range s {", "}"),
+		gf("for", "for-range-assign-deref", "for *(&n) = range s {", "}"),
+		gf("for", "for-range-assign-parens", "for (n) = range s {", "}"),
+		gf("for", "for-range-assign-map-index", "for map[int]int{}[0] = range s {", "}"),
+		gf("for", "for-range-assign-field", "for n, struct{ F int }{}.F = range s {", "}"),
+		gf("for", "for-range-assign-call", "for len(s) = range s {", "}"),
+		gf("for", "for-range-assign-literal", "for 1 = range s {", "}"),
 		gf("for", "for-range-chan", "for v := range ch { _ = v", "break }"),
 		gf("for", "for-range-func", "for v := range func(yield func(int) bool) {} { _ = v", "}"),
 		gf("for", "for-in", "for v in s { _ = v", "}"),
